@@ -190,6 +190,38 @@ def _cookie_dict(value):
     return out or None
 
 
+_PD_PAIR = re.compile(r'^([A-Za-z0-9]+)=([A-Za-z0-9]+(?:,[A-Za-z0-9]+)*)$')
+
+
+def _params_dict(query):
+    """'k=v&k=v2&j=w' / 'k=v,v2' -> (dict, params_csv) when the query is exactly what the documented
+    params= encoding produces for that dict (unreserved characters only, repeats of a key adjacent)."""
+    if not query:
+        return None
+    out, csv, repeated, last = {}, False, False, None
+    for part in query.split('&'):
+        m = _PD_PAIR.match(part)
+        if not m:
+            return None
+        k, v = m.group(1), m.group(2)
+        if ',' in v:
+            if k in out:
+                return None
+            csv = True
+            out[k] = v.split(',')
+        elif k in out:
+            if k != last:
+                return None
+            repeated = True
+            out[k] = (out[k] if isinstance(out[k], list) else [out[k]]) + [v]
+        else:
+            out[k] = v
+        last = k
+    if csv and repeated:
+        return None     # params_csv applies to every list at once
+    return out, csv
+
+
 def sim_kwargs(req, default_ua):
     """abstract request -> simulate_request(**kwargs), or (None, reason) when not expressible.
 
@@ -207,8 +239,10 @@ def sim_kwargs(req, default_ua):
         return None, 'target shape'
     if not req['query'].isascii():
         return None, 'raw 8-bit query'
+    inline = bool(st.get('inline_query'))
     if req['query'].startswith('?'):
-        return None, 'simulate_request refuses a query string starting with ?'
+        # create_environ / create_scope raise ValueError for it, also when it arrives inline in the path
+        return None, 'the simulators refuse a query string starting with ?'
     if not comparable(req):
         return None, 'singleton header repeated'
     if req['method'] != req['method'].upper():
@@ -241,8 +275,19 @@ def sim_kwargs(req, default_ua):
         headers.append((k, v))
     kw = {'method': req['method'], 'path': path, 'protocol': req['scheme'], 'host': req['server'][0],
           'http_version': req['http_version']}
-    if req['query'] or st.get('empty_query_arg'):
+    pd = _params_dict(req['query']) if st.get('params_dict') else None
+    if inline and (req['query'] or st.get('inline_empty')):
+        # documented: "The path may contain a query string" - everything after the FIRST '?' is the query
+        kw['path'] = path + '?' + req['query']
+        if st.get('params_empty'):
+            kw['params'] = {}
+    elif pd is not None:
+        # documented: params= dict, lists repeated (params_csv=False) or comma-joined (params_csv=True)
+        kw['params'], kw['params_csv'] = pd
+    elif req['query'] or st.get('empty_query_arg'):
         kw['query_string'] = req['query']
+        if st.get('params_empty'):
+            kw['params'] = {}
     if req['server'][1] != default_port(req['scheme']) or st.get('explicit_port'):
         kw['port'] = req['server'][1]
     if req['client'] is None:
